@@ -425,6 +425,9 @@ impl Sim {
             },
             None => None,
         };
+        // pre-state flag for the case's meta line: a committed membership entry is still unapplied
+        // (the state in which the campaign guards of C09 decide)
+        let ucc = self.rec.enabled && self.unapplied_committed_conf_change(i) != 0;
         let d = self.nodes[i].driver.as_mut()?;
         let role = d.node.raft.state;
         let ppre = (d.node.raft.term, d.node.raft.vote, d.node.raft.state);
@@ -536,9 +539,9 @@ impl Sim {
         } else {
             self.pt.crash(nid);
         }
-        let meta = format!("{} {:?} {} run={} ev={}", call_kind(&c), role,
+        let meta = format!("{} {:?} {} run={} ev={}{}", call_kind(&c), role,
             if let Call::Step(m) = &c { format!("{:?}", m.get_msg_type()) } else { "-".to_string() },
-            self.run_id, self.trace_len);
+            self.run_id, self.trace_len, if ucc { " ucc" } else { "" });
         self.trace_len += 1;
         *self.rec.hist.entry(call_kind(&c)).or_insert(0) += 1;
         if self.keep_trace {
@@ -872,7 +875,7 @@ impl Sim {
             self.archive[j] = m.clone();
         }
         if let Some(i) = self.idx_of(m.to) {
-            let is_app = m.get_msg_type() == MessageType::MsgAppend;
+            let is_app = matches!(m.get_msg_type(), MessageType::MsgAppend | MessageType::MsgHeartbeat);
             self.call(i, Call::Step(m));
             if is_app {
                 self.after_append(i);
@@ -880,11 +883,12 @@ impl Sim {
         }
     }
 
-    /// A node that has just learnt of committed membership entries it has neither persisted nor
-    /// applied is asked to campaign at once (the campaign guard must see them although nothing
-    /// can be handed to the application yet).
+    /// A node that has just learnt of committed membership entries it has not applied (or not even
+    /// persisted, so that nothing can be handed to the application yet) is asked to campaign at
+    /// once: the campaign guard must see them, on whichever page of the scan they are.
     fn after_append(&mut self, i: usize) {
-        if self.unpersisted_committed_conf_change(i) && self.rng.chance(1, 2) {
+        let k = self.unapplied_committed_conf_change(i);
+        if (k == 2 && self.rng.chance(1, 2)) || (k == 1 && self.rng.chance(1, 4)) {
             if !self.adversarial || self.rng.chance(1, 2) {
                 self.call(i, Call::Campaign);
             } else {
@@ -902,19 +906,27 @@ impl Sim {
         }
     }
 
-    fn unpersisted_committed_conf_change(&self, i: usize) -> bool {
+    /// 0: no membership entry in (applied, committed]; 1: there is one; 2: there is one that the
+    /// store has not even persisted (so nothing can be handed to the application yet).
+    fn unapplied_committed_conf_change(&self, i: usize) -> u8 {
         let d = match self.nodes[i].driver.as_ref() {
             Some(d) => d,
-            None => return false,
+            None => return 0,
         };
         let l = &d.node.raft.raft_log;
-        let lo = l.persisted.max(l.applied) + 1;
+        let lo = l.applied + 1;
         if l.committed < lo || lo < l.first_index() {
-            return false;
+            return 0;
         }
         match l.slice(lo, l.committed + 1, None, raft::GetEntriesContext::empty(false)) {
-            Ok(es) => es.iter().any(|e| e.get_entry_type() != EntryType::EntryNormal),
-            Err(_) => false,
+            Ok(es) => {
+                let mut r = 0;
+                for e in es.iter().filter(|e| e.get_entry_type() != EntryType::EntryNormal) {
+                    r = r.max(if e.index > l.persisted { 2 } else { 1 });
+                }
+                r
+            }
+            Err(_) => 0,
         }
     }
 
